@@ -207,11 +207,19 @@ def run_property(prop, tier, seed):
                 except Exception as e:  # noqa
                     log("confirmation crashed: %r" % e)
                     ok = False
+            if not ok and f.get("kind") in TIMING_KINDS:
+                # a wall-clock observation (growth rate, deadline) made while 16 workers compete for the machine and NOT seen again when
+                # the case runs alone is load noise, neither a verdict nor a broken harness: the cluster is dropped and counted
+                log("timing observation not confirmed in isolation, dropped: %s" % (key,))
+                agg["stats"]["%s.timing-observation-not-confirmed" % prop.lower()] = agg["stats"].get("%s.timing-observation-not-confirmed" % prop.lower(), 0) + len(items)
+                items = None
+                break
             if not ok:
                 log("MACHINERY ERROR: failure not reproducible in isolation: %s %s" % (key, json.dumps(case, default=str)[:500]))
                 write_evidence(mod, prop, tier, seed, agg, t0, [], {}, machinery=True)
                 return 2
-        confirmed.append((key, items))
+        if items is not None:
+            confirmed.append((key, items))
 
     for eid, info in explained.items():
         case, f = info["example"]
@@ -270,6 +278,9 @@ def write_evidence(mod, prop, tier, seed, agg, t0, confirmed, explained, machine
     with open(tmp, "w") as f:
         json.dump(ev, f, indent=1, default=str)
     os.replace(tmp, os.path.join(EVID, prop + ".json"))
+
+
+TIMING_KINDS = ("superpolynomial-growth", "timeout")
 
 
 def main(argv):
